@@ -312,6 +312,8 @@ PROPS["C17"]["tables"] = {"quick": [{"types": [(24, True), (64, False), (192, Tr
                           "thorough": [{"types": [(8, False), (16, True), (24, True), (32, False), (64, True), (64, False), (96, True), (128, False), (192, True), (256, False)], "modes": BEH_MODES, "length": 40, "num": 150}]}
 PROPS["C01"]["tables"] = {"quick": [{"types": [(96, False), (128, True)], "modes": ["debug"], "length": 30, "num": 25}],
                           "thorough": [{"types": [(24, False), (64, True), (96, False), (128, True), (192, False), (256, True)], "modes": BEH_MODES, "length": 40, "num": 150}]}
+# FromStr (a trait form of C17) must agree with from_str_radix(_, 10): the parse families record both forms
+PROPS["C17"]["extra"] = {"quick": [("text", "C10", [24, 64, 128])], "thorough": [("text", "C10", [8, 16, 24, 32, 64, 96, 128, 192, 256])]}
 PROPS["C17"]["mc"] = {"quick": [{"dir": "mc", "module": "MC_Machine.tla", "cfg": "MC_Machine_i4q.cfg", "workers": 6, "timeout": 1800}],
                       "thorough": [{"dir": "mc", "module": "MC_Machine.tla", "cfg": c, "workers": 10, "xmx": "8g", "timeout": 3000} for c in ("MC_Machine_u4.cfg", "MC_Machine_i4.cfg", "MC_Machine_u4r.cfg", "MC_Machine_i6.cfg")]}
 
